@@ -13,7 +13,7 @@ def run(chk, replay=None):
                                "compared with the exact rationals at 2^-20 with a tolerance of eps x conditioning computed by the spec"]
     chk.cov["rule"] = ("one case per sequence of 0..4 results (calls 2..8, non-zero calls 0 / 1 / all, estimates -2..2, variances 1/4, 1, 4) and one rotation of "
                        "every fourth, for float / double / long double and three dyadic scalings: accumulate<weighted_with_variance>, accumulate<weighted_equally>, "
-                       "chi_square_dof; plus sequences of plain_results carrying a 1-d (3 bins) and a 2-d (2x2 bins) distribution combined bin by bin; "
+                       "chi_square_dof; plus 1..3 results of more than 2^32 calls each (CombBig: counters as limbs, round trip of the (value, error) conversion); plus sequences of plain_results carrying a 1-d (3 bins) and a 2-d (2x2 bins) distribution combined bin by bin; "
                        "non-trivial = sequence with at least two informative results")
     chk.model("MC_Combine", "MC_Combine_thorough" if thorough else "MC_Combine", workers=8,
               what="MC_Combine: Laws on all sequences <= 3, permutation invariance, empty results ignored, chi^2 special cases")
@@ -26,9 +26,9 @@ def run(chk, replay=None):
     for k, e in enumerate(rows):
         rs = e["rs"]
         if sum(1 for i in range(len(rs) // 6) if rs[6 * i + 1] != 0) >= 2:
-            chk.nontrivial((e["e"], e["T"], e["k"], tuple(rs)))
-    chk.sample_each(rows, ("Comb", "CombHead", "CombBin"))
-    ok, matched, res = chk.validate("Trace_C13", trace, need_actions=("Comb", "CombHead", "CombBin"), timeout=900)
+            chk.nontrivial((e["e"], e["T"], e.get("k", 0), tuple(rs)))
+    chk.sample_each(rows, ("Comb", "CombHead", "CombBin", "CombBig"))
+    ok, matched, res = chk.validate("Trace_C13", trace, need_actions=("Comb", "CombHead", "CombBin", "CombBig"), timeout=900)
     if not ok:
         bad = rows[matched] if matched < len(rows) else None
         chk.violation("C13:combine", trace, "event %d rejected by Trace_C13: %s" % (matched + 1, str(bad)[:600]))
